@@ -117,14 +117,14 @@ def harness(ctx):
         _try(ctx, "B*A", lambda: B * A, lambda: rb * ra)
         return
     if g == "scalars":
-        c0 = ctx.leaf("c0", ())
+        c0 = ctx.leaf("argc0", ())
         for tag, c in (("2.5", 2.5), ("-1.5", -1.5), ("0.0", 0.0), ("0d", c0)):
             _try(ctx, f"A*{tag}", lambda c=c: A * c, lambda c=c: ra * c)
             _try(ctx, f"{tag}*A", lambda c=c: c * A, lambda c=c: c * ra)
         _try(ctx, "A/2.0", lambda: A / 2.0, lambda: ra / 2.0)
         _try(ctx, "A/0d", lambda: A / c0, lambda: ra / c0)
         if batch:
-            cb = ctx.leaf("cb", batch)
+            cb = ctx.leaf("argcb", batch)
             _try(ctx, "A*batchconst", lambda: A * cb[..., None, None], lambda: ra * cb[..., None, None])
             neg = torch.tensor([-2.0, 0.0], dtype=torch.float64)[: batch[0]].reshape(batch[0], *([1] * (len(batch) - 1)), 1, 1)
             _try(ctx, "A*batch[-2,0]", lambda: A * neg, lambda: ra * neg)
@@ -133,8 +133,8 @@ def harness(ctx):
     if g == "diag_ops":
         if not sq:
             return
-        d = ctx.leaf("dd", (n,))
-        c1 = ctx.leaf("c1", (1,))
+        d = ctx.leaf("argdd", (n,))
+        c1 = ctx.leaf("argc1", (1,))
         I = torch.eye(n, dtype=torch.float64)
         _try(ctx, "add_diagonal(vec)", lambda: A.add_diagonal(d), lambda: ra + torch.diag_embed(d))
         _try(ctx, "add_diagonal(1-elt)", lambda: A.add_diagonal(c1), lambda: ra + I * c1)
@@ -143,7 +143,7 @@ def harness(ctx):
         if A.dtype == torch.float64:  # the default jitter 1e-3 is rounded to the operator's dtype
             _try(ctx, "add_jitter()", lambda: A.add_jitter(), lambda: ra + I * 1e-3)
         if batch:
-            db = ctx.leaf("db", batch + (n,))
+            db = ctx.leaf("argdb", batch + (n,))
             _try(ctx, "add_diagonal(batched)", lambda: A.add_diagonal(db), lambda: ra + torch.diag_embed(db))
         _try(ctx, "A+Diag", lambda: A + linear_operator.operators.DiagLinearOperator(d), lambda: ra + torch.diag_embed(d))
         _try(ctx, "Diag+A", lambda: linear_operator.operators.DiagLinearOperator(d) + A, lambda: ra + torch.diag_embed(d))
@@ -187,14 +187,14 @@ def harness(ctx):
     if g == "low_rank":
         if not (BUILDERS[p["a"]].pd and sq):
             return
-        V = ctx.leaf("V", batch + (n, 1))
+        V = ctx.leaf("argV", batch + (n, 1))
         _try(ctx, "add_low_rank", lambda: A.add_low_rank(V), lambda: ra + V @ V.mT)
-        Bc = ctx.leaf("Bc", batch + (n, 1))
-        Dl = ctx.leaf("Dl", batch + (1, 1), tril=True, posdiag=True)
+        Bc = ctx.leaf("argBc", batch + (n, 1))
+        Dl = ctx.leaf("argDl", batch + (1, 1), tril=True, posdiag=True)
         D = Dl @ Dl.mT + (Bc.mT @ torch.linalg.solve(ra, Bc)) if False else None
         return
     if g == "elementwise_tensor":
-        Tn = ctx.leaf("T", tuple(ra.shape))
+        Tn = ctx.leaf("argT", tuple(ra.shape))
         _try(ctx, "A*T", lambda: A * Tn, lambda: ra * Tn)
         _try(ctx, "T*A", lambda: Tn * A, lambda: Tn * ra)
         _try(ctx, "A+T", lambda: A + Tn, lambda: ra + Tn)
@@ -210,7 +210,7 @@ def harness(ctx):
         B, rb = BUILDERS["Toeplitz"](ctx, n, batch, p="b_")
         C, rc = BUILDERS["Diag"](ctx, n, batch, p="c_")
         I = torch.eye(n, dtype=torch.float64)
-        X = ctx.leaf("X", (n, 2))
+        X = ctx.leaf("argX", (n, 2))
         if pg == "p_add_add_jitter":
             _try(ctx, pg, lambda: ((A + B) + C).add_jitter(0.25), lambda: ra + rb + rc + 0.25 * I)
         elif pg == "p_mul_add_matmul":
@@ -224,7 +224,7 @@ def harness(ctx):
         elif pg == "p_expand_add":
             _try(ctx, pg, lambda: A.expand(2, n, n) + B.unsqueeze(0), lambda: ra.expand(2, n, n) + rb.unsqueeze(0))
         elif pg == "p_diag_chain":
-            d = ctx.leaf("dd", (n,))
+            d = ctx.leaf("argdd", (n,))
             _try(ctx, pg, lambda: (A.add_diagonal(d) + C).add_jitter(0.5) @ X, lambda: (ra + torch.diag_embed(d) + rc + 0.5 * I) @ X)
         return
     raise ValueError(g)
